@@ -169,6 +169,7 @@ Detach(st, h, cancel) ==
 (* Cluster._start_reconnector *)
 StartRecon(st, h, add) ==
     IF h \in Ignored THEN st
+    ELSE IF "D4_recon_removed" \in Fixed /\ st.removed[h] THEN st    \* repaired: no reconnector for a host that left the metadata
     ELSE LET s1 == Detach(st, h, TRUE) IN                       \* the old handler, if any, is cancelled
          [s1 EXCEPT !.recon[h] = "live",
                     !.sched = IF ClusterShut THEN @ ELSE BagAdd(@, TRecon(h, TRUE, FALSE, add)),   \* scheduler drops entries once shut down
@@ -270,7 +271,6 @@ RunOnDown(st, t) ==
     LET h == t.h IN
     IF ClusterShut \/ h = Ctl THEN st                     \* the control host keeps its pools: always discounted
     ELSE IF h \notin Ignored /\ \E s \in Sessions : st.pools[s][h] = "open" THEN st     \* _discount_down_events
-    ELSE IF "D4_recon_removed" \in Fixed /\ st.removed[h] THEN st
     ELSE LET wasUp == st.up[h] = "T"
              s1 == SetDown(st, h)
          IN IF (~wasUp /\ ~t.f2) \/ st.recon[h] # "none" THEN s1
